@@ -474,7 +474,7 @@ NO_SHRINK = True
 
 
 def shards(tier, seed):
-    n = 500 if tier == "thorough" else 120
+    n = 700 if tier == "thorough" else 300
     return [{"seed": seed, "lo": i * n, "hi": (i + 1) * n, "all": tier == "thorough"} for i in range(16)]
 
 
